@@ -67,16 +67,19 @@ type c05Msg struct {
 	ct     packet.CommandType
 	resp   bool
 	fields [][2]string // name, valid JSON value
+	raw    packet.Type // != 0: not a command - the body is the payload of a packet of this type
 }
 
 var c05Msgs = []c05Msg{
-	{packet.HTTPProxyResponse, true, [][2]string{{"request_id", `"c"`}, {"status_code", "200"}, {"headers", `{"Content-Type":"text/plain"}`}, {"body", `"aGVsbG8="`}, {"error", `""`}}},
-	{packet.SOCKS5TunnelRequestCmd, false, [][2]string{{"tunnel_id", `"t"`}, {"mapping_id", `"m"`}, {"target_client_id", "1001"}, {"target_host", `"h"`}, {"target_port", "80"}, {"protocol", `"tcp"`}}},
-	{packet.DNSResolve, false, [][2]string{{"domain", `"a.b"`}, {"qtype", "1"}, {"target_client_id", "1001"}}},
-	{packet.DNSResolve, true, [][2]string{{"success", "true"}, {"ips", `["1.2.3.4"]`}, {"ttl", "60"}, {"error", `""`}}},
-	{packet.DNSQuery, false, [][2]string{{"query_id", `"q"`}, {"target_client_id", "1001"}, {"dns_server", `"1.1.1.1:53"`}, {"raw_query", `"AAE="`}}},
-	{packet.DNSQuery, true, [][2]string{{"query_id", `"q"`}, {"success", "true"}, {"raw_answer", `"AAE="`}, {"error", `""`}}},
-	{packet.TunnelTrafficReport, false, [][2]string{{"mapping_id", `"m"`}, {"bytes_sent", "1"}, {"bytes_received", "2"}, {"connections", "1"}, {"timestamp", "5"}}},
+	{raw: packet.Handshake, fields: [][2]string{{"client_id", "1001"}, {"version", `"3"`}, {"protocol", `"tcp"`}, {"connection_type", `"control"`}, {"challenge_response", `"ab"`}}},
+	{raw: packet.TunnelOpen, fields: [][2]string{{"mapping_id", `"m"`}, {"tunnel_id", `"t"`}, {"secret_key", `"k"`}, {"resume_token", `"r"`}, {"target_host", `"h"`}, {"target_port", "80"}, {"target_network", `"tcp"`}}},
+	{ct: packet.HTTPProxyResponse, resp: true, fields: [][2]string{{"request_id", `"c"`}, {"status_code", "200"}, {"headers", `{"Content-Type":"text/plain"}`}, {"body", `"aGVsbG8="`}, {"error", `""`}}},
+	{ct: packet.SOCKS5TunnelRequestCmd, resp: false, fields: [][2]string{{"tunnel_id", `"t"`}, {"mapping_id", `"m"`}, {"target_client_id", "1001"}, {"target_host", `"h"`}, {"target_port", "80"}, {"protocol", `"tcp"`}}},
+	{ct: packet.DNSResolve, resp: false, fields: [][2]string{{"domain", `"a.b"`}, {"qtype", "1"}, {"target_client_id", "1001"}}},
+	{ct: packet.DNSResolve, resp: true, fields: [][2]string{{"success", "true"}, {"ips", `["1.2.3.4"]`}, {"ttl", "60"}, {"error", `""`}}},
+	{ct: packet.DNSQuery, resp: false, fields: [][2]string{{"query_id", `"q"`}, {"target_client_id", "1001"}, {"dns_server", `"1.1.1.1:53"`}, {"raw_query", `"AAE="`}}},
+	{ct: packet.DNSQuery, resp: true, fields: [][2]string{{"query_id", `"q"`}, {"success", "true"}, {"raw_answer", `"AAE="`}, {"error", `""`}}},
+	{ct: packet.TunnelTrafficReport, resp: false, fields: [][2]string{{"mapping_id", `"m"`}, {"bytes_sent", "1"}, {"bytes_received", "2"}, {"connections", "1"}, {"timestamp", "5"}}},
 }
 
 // A valid body of each of these commands with every field independently kept, dropped, set to
@@ -124,8 +127,64 @@ func Harness_C05_command_bodies() {
 	if m.resp {
 		pt = packet.CommandResp
 	}
-	sm.HandlePacket(&types.StreamPacket{ConnectionID: "h1", Timestamp: time.Now(), Packet: &packet.TransferPacket{PacketType: pt,
-		CommandPacket: &packet.CommandPacket{CommandType: m.ct, CommandId: "c", CommandBody: body}}})
+	if m.raw != 0 {
+		sm.HandlePacket(&types.StreamPacket{ConnectionID: "h1", Timestamp: time.Now(), Packet: &packet.TransferPacket{PacketType: m.raw, Payload: []byte(body)}})
+	} else {
+		sm.HandlePacket(&types.StreamPacket{ConnectionID: "h1", Timestamp: time.Now(), Packet: &packet.TransferPacket{PacketType: pt,
+			CommandPacket: &packet.CommandPacket{CommandType: m.ct, CommandId: "c", CommandBody: body}}})
+	}
 	verif_Quiesce()
 	verif_Cover("C05.body.done")
+}
+
+// A valid body of each of these messages with ONE field given another value of its own kind - a
+// string no enumeration knows (different case, padded, empty), an extreme or negative number -
+// and every other field valid: the dispatcher returns, it never panics.
+func Harness_C05_field_values() {
+	verif_ClockSet(int64(1) << 60)
+	ctx, stop := context.WithCancel(context.Background())
+	sm := NewSessionManager(nil, ctx)
+	defer func() { sm.Close(); stop() }()
+	sm.SetAuthHandler(&vsAuth{ok: map[int64]bool{1001: true}})
+	sm.SetTunnelHandler(c05Tunnels{})
+	rw := &c05RW{verifConn: verifConn{In: &verifReader{}, Out: &verifSink{}}}
+	_, err := sm.CreateConnection(rw, rw)
+	verif_Assert("C05.val.setup", err == nil)
+	if verif_Bool() {
+		verif_Assert("C05.val.setup_auth", vsHandshake(sm, "h1", &packet.HandshakeRequest{ClientID: 1001, ConnectionType: "control"}) == nil)
+		verif_Quiesce()
+	}
+	m := c05Msgs[verif_Choose(len(c05Msgs))]
+	victim := verif_Choose(len(m.fields))
+	body := "{"
+	for i, f := range m.fields {
+		val := f[1]
+		if i == victim {
+			switch val[0] {
+			case '"':
+				val = []string{`"Zz"`, `""`, `"CONTROL"`, `" control"`, `"tunnel "`}[verif_Choose(5)]
+			case '{', '[', 't', 'f':
+				val = []string{"{}", "[]", "false"}[verif_Choose(3)]
+			default:
+				val = []string{"-1", "0", "9223372036854775807", "65536"}[verif_Choose(4)]
+			}
+		}
+		if i > 0 {
+			body += ","
+		}
+		body += `"` + f[0] + `":` + val
+	}
+	body += "}"
+	pt := packet.JsonCommand
+	if m.resp {
+		pt = packet.CommandResp
+	}
+	if m.raw != 0 {
+		sm.HandlePacket(&types.StreamPacket{ConnectionID: "h1", Timestamp: time.Now(), Packet: &packet.TransferPacket{PacketType: m.raw, Payload: []byte(body)}})
+	} else {
+		sm.HandlePacket(&types.StreamPacket{ConnectionID: "h1", Timestamp: time.Now(), Packet: &packet.TransferPacket{PacketType: pt,
+			CommandPacket: &packet.CommandPacket{CommandType: m.ct, CommandId: "c", CommandBody: body}}})
+	}
+	verif_Quiesce()
+	verif_Cover("C05.val.done")
 }
